@@ -30,6 +30,7 @@ type G struct {
 	T           *rapid.T
 	V2          bool
 	Hostile     int  // 0..100: probability (percent) of deliberately ill-typed / extreme choices
+	UniqueOrder bool // never loop over something that may be a map of two or more keys (for oracles that compare two executions verbatim)
 	Probes      bool // wrap operands in pval() and insert probe() statements
 	Names       []string
 	Env         map[string]Ty // static guesses for variables and point keys
@@ -637,6 +638,12 @@ func (g *G) forInStmt(d int) []*gen.Node {
 			switch gen.Fold(iter).Kind {
 			case gen.Bool, gen.Nil, gen.Int, gen.Float:
 				iter = gen.NParen(iter)
+			case gen.Str, gen.List:
+			default:
+				if g.UniqueOrder {
+					// anything else may evaluate to a map of several keys, whose iteration order is not specified
+					iter, kind = g.mapLitSingle(), "map"
+				}
 			}
 		} else {
 			iter, kind = g.mapLitSingle(), "map"
